@@ -25,7 +25,7 @@ RULE = (
     "difference; distinct = (task, policy, range kind, removed?, tp?, fp?, fn?, tn?, n_frames class)"
 )
 ASSUMPTIONS = ["objects and ego have yaw-only rotations", "no decision within 1e-6 of a boundary in the ego-frame description (otherwise skipped)"]
-DECIDING = ["C07.interpolated_pairs_compared", "C07.pairs_compared", "C07.frames_compared", "C07.pairs_with_removed_object", "C07.pairs_with_tp", "C07.tracking_pairs", "C07.scene_compared"]
+DECIDING = ["C07.interpolated_pairs_compared", "C07.pairs_compared", "C07.frames_compared", "C07.pairs_with_removed_object", "C07.pairs_with_tp", "C07.tracking_pairs", "C07.scene_compared", "C07.no_ego_pose_runs_compared"]
 JOBS = {"quick": 4, "thorough": 14}
 TOL = 1e-6
 
@@ -48,13 +48,29 @@ def run(ctx: Ctx) -> None:
             with D.DatasetDir(spec) as ds:
                 run_e = Run(scn, "base_link", ds)
                 run_m = Run(scn, "map", ds)
+                run_n = Run(scn, "base_link", ds) if idx % 2 == 0 else None  # ego frame without a registered ego pose
                 dig_e: List[Dict[str, Any]] = []
                 dig_m: List[Dict[str, Any]] = []
+                dig_n: List[Dict[str, Any]] = []
                 for k in range(len(scn.frames)):
                     dig_e.append(compare.frame_digest(run_e.add(k)))
                     dig_m.append(compare.frame_digest(run_m.add(k, negate=negate)))
+                    if run_n is not None:
+                        dig_n.append(compare.frame_digest(run_n.add(k, no_ego_pose=True)))
                 scene_e = compare.metrics_digest(run_e.manager.get_scene_result())
                 scene_m = compare.metrics_digest(run_m.manager.get_scene_result())
+                scene_n = compare.metrics_digest(run_n.manager.get_scene_result()) if run_n is not None else None
+            if run_n is not None:
+                ctx.count("C07.no_ego_pose_runs_compared")
+                for k, (a, b) in enumerate(zip(dig_e, dig_n)):
+                    for part in ("results", "critical_gt", "tp", "fp", "fn", "tn", "metrics"):
+                        d = compare.diff(a[part], b[part], TOL)
+                        if d is not None:
+                            ctx.violation(f"C07/ego_frame_run_depends_on_registered_ego_pose:{part}", dict(scn.info, frame=k, first_difference=d[:400]), tap="comparator")
+                            break
+                d = compare.diff(scene_e, scene_n, TOL)
+                if d is not None:
+                    ctx.violation("C07/ego_frame_run_depends_on_registered_ego_pose:scene_metrics", dict(scn.info, first_difference=d[:400]), tap="comparator")
             ctx.count("C07.pairs_compared")
             removed = tp = False
             for k, (a, b) in enumerate(zip(dig_e, dig_m)):
